@@ -23,7 +23,7 @@ UNITS = [
     Unit(name="C04.update_stall", src=SRC, defines=["VP_H_UPDATE_STALL"], functions=["bidib_node_update_stall", "bidib_node_query"],
          props=["C04"], replace=["bidib_node_try_queued_messages", "bidib_add_to_buffer", "bidib_flush"], kind="bounded",
          bound="waiter loop unwound 5 times (up to 4 waiting nodes retried per call, each arbitrary via the lazy queue abstraction), no unwinding assertion",
-         unwindset={"bidib_node_update_stall.0": 6}, unwind_assert=False,
+         unwindset={"bidib_node_update_stall.0": 6}, unwind_assert=False, extra_flags=["--unwind", "6"],   # any other (new) loop is cut at 6 as well instead of being unwound forever
          remove_bodies=["bidib_node_stall_ready"], timeout=600, covers=2, min_obligations=8),
     Unit(name="C03.state_update", src=SRC, defines=["VP_H_STATE_UPDATE"], functions=["bidib_node_state_update"], props=["C03"],
          replace=["bidib_node_try_queued_messages", "bidib_add_to_buffer", "bidib_flush"], remove_bodies=["bidib_node_stall_ready"],
